@@ -11,26 +11,46 @@ CHECK = {'level': 'exploration',
          'corpus of the native fuzz target; (d) 1-4 generated blocks (transactions, assets, optionally a header with missing fields that only '
          'the lenient header decoder accepts) through NewBlock -> Chain.AddBlock -> fresh DataAccess -> GetBlock*/GetTransaction/GetTempBlocks; '
          '(e) Lisk32: boundary (all single-bit) and random 20-byte addresses, every single-character substitution exhaustively for boundary '
-         'addresses and random 1-4 character substitutions in the 38 data/checksum characters. Non-trivial = (a) value with at least one '
+         'addresses and random 1-4 character substitutions in the 38 data/checksum characters; (f) corrupted TEXT forms: valid Lisk32 texts '
+         'damaged at byte level by 16 mutation kinds (any single bit flip incl. bit 7, bit 7 set on one/several/all bytes, bytes >= 0x80, '
+         'multi-byte UTF-8 runes, valid-UTF-8 triples whose bytes alias alphabet characters modulo 128, upper case, length +-1 / truncation / '
+         'missing prefix, ASCII outside the alphabet, checksum characters, transpositions, data changed with recomputed checksum, foreign '
+         'prefix, white space, random bodies) through ValidateLisk32 / Lisk32ToBytes / BytesToLisk32 and the JSON path '
+         'Lisk32.UnmarshalJSON/MarshalJSON, decided by an independent LIP-0018 reference in the harness (alphabet table over all 256 byte '
+         'values, BCH polymod, 5<->8 bit regrouping; pinned by two published known answers); exhaustively every single-bit flip of all 41 '
+         'bytes of 330 boundary addresses and every byte value 0..255 at every body position of 25 of them (all in thorough); seed corpus of '
+         'the native target FuzzLisk32Text; the codec.Hex text form (String/MarshalJSON/UnmarshalJSON) with 11 mutation kinds against what '
+         'encoding/hex documents. Non-trivial = (a) value with at least one '
          'non-default field of each field kind present in its type; (b) multi-byte varint / non-empty array; (c) byte string whose first field '
-         'still parses structurally with bytes following; (d) a block with transactions and assets, or a lenient-form header; (e) every case. '
+         'still parses structurally with bytes following; (d) a block with transactions and assets, or a lenient-form header; (e), (f) every case. '
          'Distinct by digest of type+encoded bytes / the byte string / the case tuple',
  'level_text': 'Round trip of generated values of every generated-codec type (decode(encode(v)) equal under NFC / nil=empty / absent=zero-message, '
                'deterministic and idempotent encoding, strict decoding of own encodings); for transactions the implication '
                'DecodeStrict(s)==nil => Encode(decoded)==s and ID==SHA-256(s) on generated canonical, derived, short-exhaustive and '
                'window-exhaustive byte strings; block/transaction IDs and encodings compared before and after store + cold load and re-encoding; '
-               'Lisk32 bytes<->text identity and rejection of 1-4 substituted characters. Sampled, with exhaustive cores on small domains.',
+               'Lisk32 bytes<->text identity and rejection of 1-4 substituted characters; for byte-level corrupted Lisk32 texts: accepted => '
+               'BytesToLisk32(Lisk32ToBytes(text)) == text, accepted <=> an independent LIP-0018 reference accepts (same bytes), ValidateLisk32 '
+               'and Lisk32ToBytes agree, same through the JSON path. Sampled, with exhaustive cores on small domains.',
  'level_note': 'Two scanned types are not instantiable from outside (package main debug tool; internal test fixture of pkg/codec) and are reported '
                'in the evidence notes. Needs the hook files of hooks_proposed/C08.patch (VerifCodecTypes in 6 packages with unexported codec types). '
-               'JSON forms, nil nested pointers and nil slice elements are outside the domain (DESIGN 1.7). Native -fuzz campaign is not started by '
-               'the driver (command in notes/C08.md); the fuzz target runs its seed corpus in every tier.',
+               'JSON forms of the generated-codec types, nil nested pointers and nil slice elements are outside the domain (DESIGN 1.7); of the JSON '
+               'layer only the text forms of codec.Lisk32 (in the statement) and codec.Hex (not in the statement: held to what encoding/hex '
+               'documents, upper case accepted) are exercised. Not demanded (documented by the unchanged code): "" <-> empty address; the three '
+               'prefix bytes are not inspected (texts with a foreign prefix are decided on their body and counted under '
+               'lisk32_text:foreign_prefix_accepted). Native -fuzz campaigns (FuzzTxStrict, FuzzLisk32Text) run in the thorough tier only; '
+               'the fuzz targets run their seed corpora in every tier.',
  'technique': 'property-based testing (rapid): reflection-driven round trip, mutation-derived byte strings with an implication oracle, '
-              'store/load metamorphic relation; exhaustive enumeration of short byte strings and single-character corruptions',
+              'store/load metamorphic relation; exhaustive enumeration of short byte strings and single-character corruptions; mutation-derived '
+              'address texts decided by an independent reference implementation (differential); native coverage-guided fuzzing (thorough)',
  'assumptions': ['equality of decoded values is over fields carrying a fieldNumber tag only (cached IDs/sizes are not wire data)',
                  'strings valid UTF-8; no nil slice elements; nested-message pointers never nil (no caller produces them)',
                  'SHA-256 from the Go standard library is the reference for IDs',
-                 'Lisk32: the three prefix letters are not part of the checksum claim'],
+                 'Lisk32: the three prefix letters are not part of the checksum claim',
+                 'Lisk32 reference = LIP-0018 as written in the harness (alphabet zxvcpmbn3465o978uyrtkqew2adsjhfg, generator constants of the '
+                 'LIP, checksum polynomial == 1), pinned by the LIP example and the fixture of pkg/codec/bytes_test.go',
+                 'encoding/json (standard library) is the reference for how a JSON string literal becomes a Go string'],
  'quick': [{'pkg': 'c08', 'checks': 60000, 'timeout': 900}],
  'thorough': [{'pkg': 'c08', 'checks': 400000, 'shards': 16, 'timeout': 2400},
-              {'pkg': 'c08', 'fuzz': 'FuzzTxStrict', 'fuzztime': '90s', 'timeout': 600}],
+              {'pkg': 'c08', 'fuzz': 'FuzzTxStrict', 'fuzztime': '90s', 'timeout': 600},
+              {'pkg': 'c08', 'fuzz': 'FuzzLisk32Text', 'fuzztime': '60s', 'timeout': 600}],
  'replay': [{'pkg': 'c08', 'checks': 1, 'timeout': 900}]}
